@@ -36,7 +36,7 @@ Faults (set_fault / script / control endpoint), applied per table request:
                  finds the unread page at the head of its next reply
     empty        200 with Content-Length 0
     nonjson      200 with an HTML body
-    nodurations  JSON without `durations`
+    nodurations  JSON without `durations`  (nodurations:null / :empty / :emptyrow / :emptydur = durations null, both tables [], both [[]], durations [])
     nulls        every stop entry of durations[0] is null
     fewer        entries for the first n//2 stops only  (fewer:<k> = first k stops)
   outside the faults listed by property C20 (kept for the record, DESIGN.md 7a O3):
@@ -263,7 +263,11 @@ class Stub:
         if base == "nonjson":
             return self._send(h, 200, "<html><body>walking router is being upgraded</body></html>", "text/html")
         if base == "nodurations":
-            return self._send(h, 200, json.dumps({"code": "Ok", "distances": [dist]}))
+            # a table without durations, in the shapes a router can give it: key absent, null, an empty table, a table of one empty row
+            shape = {"": {"code": "Ok", "distances": [dist]}, "null": {"code": "Ok", "durations": None, "distances": [dist]},
+                     "empty": {"code": "Ok", "durations": [], "distances": []}, "emptyrow": {"code": "Ok", "durations": [[]], "distances": [[]]},
+                     "emptydur": {"code": "Ok", "durations": [], "distances": [dist]}}.get(arg or "", None)
+            return self._send(h, 200, json.dumps(shape if shape is not None else {"code": "Ok", "distances": [dist]}))
         if base == "nulls":
             return self._send(h, 200, json.dumps({"code": "Ok", "durations": [[0] + [None] * n], "distances": [dist]}))
         if base == "fewer":
